@@ -5,6 +5,7 @@ import (
 	"errors"
 	"fmt"
 	"maps"
+	"math"
 	"net"
 	"slices"
 	"strconv"
@@ -199,7 +200,7 @@ func WithMaxOutboundPeers(n int) Option {
 // WithMaxInflightRPCs sets the maximum number of concurrent RPCs per peer. When
 // a peer reaches this limit, the syncer stops accepting new RPCs from it until
 // an in-flight one completes, i.e. it applies backpressure rather than dropping
-// RPCs. The default is 64.
+// RPCs. A value <= 0 disables the limit. The default is 64.
 func WithMaxInflightRPCs(n int) Option {
 	return func(c *config) { c.MaxInflightRPCs = n }
 }
@@ -506,7 +507,11 @@ func (s *Syncer) runPeer(p *Peer) {
 	}()
 
 	subnet := s.subnetKey(p.ConnAddr)
-	inflight := make(chan struct{}, s.config.MaxInflightRPCs)
+	limit := s.config.MaxInflightRPCs
+	if limit <= 0 {
+		limit = math.MaxInt32 // disabled
+	}
+	inflight := make(chan struct{}, limit)
 	for {
 		if p.Err() != nil {
 			return
